@@ -1,3 +1,5 @@
 pub mod c01;
 pub mod c04;
 pub mod c05;
+pub mod c19;
+pub mod c19_certgen;
